@@ -170,8 +170,23 @@ def writer_tags_model(c, log, viol, counters):
             counters[k] = counters.get(k, 0) + c2[k]
     if c2.get("tag_model_streams", 0) >= 2:
         counters["tag_models_with_several_streams"] = counters.get("tag_models_with_several_streams", 0) + 1
+    sg = c.art.sg
+    in_names = {defuse.canonical_name(sg.tensors[i].name) for i in sg.inputs}
+    first_ops = set()
+    if sg.ops:
+        first_ops = {defuse.canonical_name(sg.tensors[i].name) for i in sg.ops[0].inputs if i >= 0}
     for f in found[:3]:
         mech = "read-of-bytes-last-written-for-another-tensor:%s:across-operators" % f["part"]
+        want_name = defuse.canonical_name(str(f["want"][0]))
+        writer = f["found"][1] if f["found"][0] == "ext" else None
+        dyn_out = {sg.tensors[o].name: o for op in sg.ops if op.builtin == 22 and len(op.inputs) > 1 and op.inputs[1] >= 0 and sg.tensors[op.inputs[1]].data is None for o in op.outputs}
+        if writer in dyn_out and c.art.offsets[dyn_out[writer]] == 0:
+            # the C12 findings about CPU-resident RESHAPEs with run-time shapes, seen from the reader's side: such a tensor gets no live range of its own and is
+            # published at arena offset 0, on top of whatever lives there
+            mech += ":overwritten-by-the-unallocated-output-of-a-run-time-shaped-reshape"
+        elif want_name in in_names and want_name not in first_ops:
+            # the C12 finding seen from the reader's side: a graph input that the first operator does not read is reserved from its first use only
+            mech += ":graph-input-first-read-by-a-later-operator"
         viol.setdefault(mech, {"mech": mech, "msg": "%s reads %s %s at region %s %s, but those bytes were last written as %s (earlier stream / CPU operator / graph input)" % (
             f["op"], f["part"], f["want"], f["region"], f["first"], f["found"]), "witness": c.witness()})
 
